@@ -1,6 +1,106 @@
-/-! line protocol for C06 (stub: no model yet) -/
-namespace ObiVerif.Driver.C06
+import ObiVerif.Model.Uniq
+import ObiVerif.Driver.Util
+/-!
+line protocol for C06
 
-def run (_line : String) : String := "bad-op"
+`uniq <mem|disk> c=<chunks> w=<workers> b=<batch size> ns=<0|1> na=<hex> cats=<hex,…|-> stats=<hex,…|-> dm=<hex|*> <rec> …`
+
+`<rec>` = `<id hex>:<seq hex>:<count|->:<attrs>:<merged>`,
+`<attrs>` = `-` or `khex=s<hex>` / `khex=i<decimal>` joined by `,`,
+`<merged>` = `-` or `khex~vhex=w~vhex=w…` joined by `,` (a key without entries is an empty map).
+
+result: `U <n> <out rec>…` and, when `dm` names a key, ` D <n> <rec>… R <n> <rec>…` (the records obidemerge
+makes of the output, and what obiuniq makes of those).  `<out rec>` = `<seq hex>:<count>:<attrs>:<merged>` with
+the attributes sorted, only the requested `merged_` maps, entries sorted; records sorted.
+The model ignores mode, workers and batch size (the theorems say the result does not depend on them).
+-/
+namespace ObiVerif.Driver.C06
+open ObiVerif.Uniq ObiVerif.Driver
+
+/-- bytes ↔ `String`, one `Char` per byte (equality and order of Go strings are bytewise) -/
+def bstr (b : List UInt8) : String := String.ofList (b.map fun x => Char.ofNat x.toNat)
+def strb (s : String) : List UInt8 := s.toList.map fun c => UInt8.ofNat c.toNat
+
+def unhexS (s : String) : Option String := (unhex s).map bstr
+def hexS (s : String) : String := hex (strb s)
+
+def listOf (s : String) : Option (List String) :=
+  if s = "-" then some [] else (s.splitOn ",").mapM unhexS
+
+def parseAttr (s : String) : Option (String × String) :=
+  match s.splitOn "=" with
+  | [k, v] => do
+    let k ← unhexS k
+    match v.toList with
+    | 's' :: t => do let x ← unhexS (String.ofList t); pure (k, x)
+    | 'i' :: t => do let n ← (String.ofList t).toInt?; pure (k, toString n)
+    | _ => none
+  | _ => none
+
+def parseEntry (s : String) : Option (String × Nat) :=
+  match s.splitOn "=" with
+  | [v, w] => do pure (← unhexS v, ← w.toNat?)
+  | _ => none
+
+def parseMerged (s : String) : Option (String × Stats) :=
+  match s.splitOn "~" with
+  | k :: es => do pure (← unhexS k, ← es.mapM parseEntry)
+  | [] => none
+
+def parseRec (s : String) : Option Rec :=
+  match s.splitOn ":" with
+  | [i, sq, c, a, m] => do
+    let i ← unhexS i
+    let sq ← unhex sq
+    let c ← if c = "-" then some none else c.toNat?.map some
+    let a ← if a = "-" then some [] else (a.splitOn ",").mapM parseAttr
+    let m ← if m = "-" then some [] else (m.splitOn ",").mapM parseMerged
+    pure { id := i, seq := sq, cnt := c, attrs := a, merged := m }
+  | _ => none
+
+def sortS (l : List String) : List String := l.mergeSort (fun a b => decide (a ≤ b))
+
+def showList (l : List String) : String := if l.isEmpty then "-" else ",".intercalate l
+
+def showRec (stats : List String) (r : Rec) : String :=
+  let attrs := sortS (r.attrs.map fun kv => s!"{hexS kv.1}={hexS kv.2}")
+  let merged := sortS (stats.filterMap fun k =>
+    (r.merged.lookup k).map fun m =>
+      "~".intercalate (hexS k :: sortS (m.map fun e => s!"{hexS e.1}={e.2}")))
+  s!"{hex r.seq}:{r.count}:{showList attrs}:{showList merged}"
+
+def showRecs (tag : String) (stats : List String) (l : List Rec) : String :=
+  joinSp (tag :: toString l.length :: sortS (l.map (showRec stats)))
+
+def field (pre : String) (s : String) : Option String :=
+  if s.startsWith pre then some (s.drop pre.length).toString else none
+
+def run (line : String) : String :=
+  match words line with
+  | "uniq" :: mode :: c :: w :: b :: ns :: na :: cats :: stats :: dm :: recs =>
+    let r : Option String := do
+      if mode ≠ "mem" ∧ mode ≠ "disk" then none
+      let chunks ← (← field "c=" c).toNat?
+      let _ ← (← field "w=" w).toNat?
+      let _ ← (← field "b=" b).toNat?
+      let ns ← (← field "ns=" ns).toNat?
+      let na ← unhexS (← field "na=" na)
+      let cats ← listOf (← field "cats=" cats)
+      let stats ← listOf (← field "stats=" stats)
+      let dm ← field "dm=" dm
+      let input ← recs.mapM parseRec
+      if chunks = 0 then none
+      if ¬ stats.Nodup then none
+      let o : Opts := { cats := cats, stats := stats, na := na, noSingleton := ns ≠ 0 }
+      let u := uniqCRC chunks o input
+      let s1 := showRecs "U" stats u
+      if dm = "*" then pure s1
+      else
+        let k ← unhexS dm
+        let d := demerge k u
+        let r := uniqCRC chunks o d
+        pure (joinSp [s1, showRecs "D" stats d, showRecs "R" stats r])
+    r.getD "bad-op"
+  | _ => "bad-op"
 
 end ObiVerif.Driver.C06
